@@ -60,6 +60,35 @@ class CountingStream(object):
         return self.read(n)
 
 
+STREAM_KINDS = ('counting', 'packetbuffer', 'bytesio')
+
+
+class _Pos(object):
+    def __init__(self, stream, tell):
+        self.stream, self._tell = stream, tell
+
+    @property
+    def pos(self):
+        return self._tell()
+
+
+def open_stream(kind, data):
+    """(stream, position holder) over `data` for each kind of stream the library's decoders meet: the stand-in for the
+    unbuffered socket file, the library's own PacketBuffer (what packet bodies are decoded from), and a bare BytesIO."""
+    if kind == 'counting':
+        st = CountingStream(data)
+        return st, st
+    if kind == 'packetbuffer':
+        from minecraft.networking.packets import PacketBuffer
+        pb = PacketBuffer()
+        pb.send(bytes(data))
+        pb.reset_cursor()
+        return pb, _Pos(pb, lambda: pb.bytes.tell())
+    import io
+    b = io.BytesIO(bytes(data))
+    return b, _Pos(b, b.tell)
+
+
 class Sink(object):
     """Socket-like object collecting what is sent."""
 
